@@ -7,80 +7,114 @@ Property theorems only.  The session model is `Model/Session.lean`; the specific
 model.  `Gen/C11Config.lean` is regenerated from `/repo`'s source on every run; `real_config_sound`
 and the three inventory theorems re-check it.
 
-The statement at full strength would be
+The statement at full strength is
 
     theorem compile_history_free (P : Pool) : (sys Gen.config nameLt P).HistoryFree
 
-with `nameLt` the order `compare_var` really uses (Python string order on `"%tmp<n>"`).  It is FALSE of
-the code: `compile_history_free_false_for_name_order` below is a concrete history; replayed on the real
-engine it gives two different Hugrs (block ports permuted) — known finding, see notes/C11.md.
-What is proved for all pools and all histories is the `_partial` form, whose extra hypothesis is that
-the order on generated names is invariant under renumbering (true of numeric order). -/
+with `nameLt` the order `compare_var` really uses (Python string order on `"%tmp<n>"`).  It was FALSE
+of the code before `fix: restart the numbering of temporary variables in CompilationEngine.check`
+(`compile_history_free_false_for_name_order` below is a concrete history for the pre-fix configuration;
+replayed on the pre-fix engine it gave two different Hugrs, block ports permuted — see notes/C11.md) and
+is proved for the code as it is now.  `compile_history_free_of_sound` is the general form: either `check`
+restarts the numbering, or the order on generated names is invariant under renumbering. -/
 namespace GuppyVerif.Session
 
 /-- **T-src tie**: the facts regenerated from `/repo`'s source are the ones the theorems assume. -/
 theorem real_config_sound : Gen.config.Sound := by decide
 
-/-- **C11 (history freedom, all pools, all histories)**: if `check` resets the caches, nothing is
-    written into the defining frame and the tracing state is restored, then — for any order on generated
-    names that is invariant under renumbering — what `d.check()` and `compile d` return after ANY
-    history of check / compile / re-lower operations (failing ones included) is what they return in a
-    fresh session.  (Counters, `DEF_STORE` growth and the in-place mutations of cached CFGs are all
-    allowed to differ.) -/
-theorem compile_history_free_partial {cfg : Config} (hs : cfg.Sound) {lt : Nat → Nat → Bool}
-    (hlt : ShiftInv lt) (P : Pool) : (sys cfg lt P).HistoryFree := by
+/-- … and `check` restarts the `%tmp` numbering -/
+theorem real_config_restarts_tmp : Gen.config.checkRestartsTmp = true := by decide
+
+/-- **C11 (history freedom, all pools, all histories), general form**: if `check` resets the caches
+    (`parsing` included), nothing is written into the defining frame, the tracing state and `parsing` are
+    restored on every exit, and either `check` restarts the `%tmp` numbering or the order on generated
+    names is invariant under renumbering, then what `d.check()` and `compile d` return after ANY history
+    of check / compile / re-lower operations (failing ones included) is what they return in a fresh
+    session.  (Counters, `DEF_STORE` growth and the in-place mutations of cached CFGs are all allowed to
+    differ.) -/
+theorem compile_history_free_of_sound {cfg : Config} (hs : cfg.Sound) {lt : Nat → Nat → Bool}
+    (hlt : cfg.checkRestartsTmp = true ∨ ShiftInv lt) (P : Pool) : (sys cfg lt P).HistoryFree := by
   intro h d
   rw [exec_eq_run]
   have hc := run_clean cfg hs.noFrameWrite hs.tracingRestored lt P h State.init
   show observe cfg lt P (run cfg lt P h State.init) d = observe cfg lt P State.init d
   unfold observe
-  rw [(check_rel cfg hs.noFrameWrite hs.resets P d hc.1 hc.2).2,
-    lower_rel cfg hs.noFrameWrite hs.resets hlt P d hc.1 hc.2]
+  rw [(check_rel cfg hs.noFrameWrite hs.resets hs.parsingCleared P d hc.1 hc.2).2,
+    lower_rel cfg hs.noFrameWrite hs.resets hs.parsingCleared hlt P d hc.1 hc.2]
 
-example : (sys Gen.config natLt [⟨[], false, false, 1, 2, 0, [[0, 1]], [], false, false⟩]).observe
+/-- **C11 at full strength**: for the code as it is (facts regenerated from `/repo`) and the order it
+    really uses on generated names (string order), for all pools and all histories. -/
+theorem compile_history_free (P : Pool) : (sys Gen.config nameLt P).HistoryFree :=
+  compile_history_free_of_sound real_config_sound (Or.inl real_config_restarts_tmp) P
+
+example : (sys Gen.config nameLt [⟨[], false, false, 1, 2, 0, [[0, 1]], [], false, false, false⟩]).observe
     State.init 0 = (.ok (), .ok [⟨0, 1, [[0, 1]], none⟩]) := by decide
 
-/-- the same for the code as it is, were generated names compared numerically -/
-theorem compile_history_free_numeric (P : Pool) : (sys Gen.config natLt P).HistoryFree :=
-  compile_history_free_partial real_config_sound natLt_shiftInv P
+/-- the fresh-session result that the history of the pre-fix witness below must (and now does) reproduce -/
+example : (sys Gen.config nameLt [⟨[], false, false, 1, 1, 0, [[0]], [], false, false, false⟩,
+      ⟨[], false, false, 1, 2, 0, [[0, 1]], [], false, false, false⟩]).observe
+    ((sys Gen.config nameLt [⟨[], false, false, 1, 1, 0, [[0]], [], false, false, false⟩,
+      ⟨[], false, false, 1, 2, 0, [[0, 1]], [], false, false, false⟩]).exec
+        (List.replicate 9 (.lower 0)) State.init) 1 = (.ok (), .ok [⟨1, 1, [[0, 1]], none⟩]) := by decide
 
-/-- **C11 (failed operations)**: under the same hypotheses, removing a failed operation from a
-    history changes no later result. -/
-theorem failed_op_no_effect_partial {cfg : Config} (hs : cfg.Sound) {lt : Nat → Nat → Bool}
-    (hlt : ShiftInv lt) (P : Pool) : (sys cfg lt P).FailedOpNoEffect := by
+/-- the code before the fix (no restart of the numbering) — history free if generated names were
+    compared numerically -/
+theorem compile_history_free_numeric (P : Pool) :
+    (sys { Gen.config with checkRestartsTmp := false } natLt P).HistoryFree :=
+  compile_history_free_of_sound (by decide) (Or.inr natLt_shiftInv) P
+
+/-- **C11 (failed operations), general form**: under the same hypotheses, removing a failed operation
+    from a history changes no later result. -/
+theorem failed_op_no_effect_of_sound {cfg : Config} (hs : cfg.Sound) {lt : Nat → Nat → Bool}
+    (hlt : cfg.checkRestartsTmp = true ∨ ShiftInv lt) (P : Pool) : (sys cfg lt P).FailedOpNoEffect := by
   intro h₁ o h₂ d _
-  rw [compile_history_free_partial hs hlt P (h₁ ++ o :: h₂) d,
-    compile_history_free_partial hs hlt P (h₁ ++ h₂) d]
+  rw [compile_history_free_of_sound hs hlt P (h₁ ++ o :: h₂) d,
+    compile_history_free_of_sound hs hlt P (h₁ ++ h₂) d]
 
-/-- a failing `lower` exists (non-vacuity of `failed_op_no_effect_partial`) -/
-example : (sys Gen.config natLt [⟨[], true, false, 1, 0, 0, [], [], false, false⟩]).failsAt (.lower 0)
+/-- **C11 (failed operations) at full strength**, for the code as it is -/
+theorem failed_op_no_effect (P : Pool) : (sys Gen.config nameLt P).FailedOpNoEffect :=
+  failed_op_no_effect_of_sound real_config_sound (Or.inl real_config_restarts_tmp) P
+
+/-- a failing `lower` exists (non-vacuity of `failed_op_no_effect`) -/
+example : (sys Gen.config nameLt [⟨[], true, false, 1, 0, 0, [], [], false, false, false⟩]).failsAt (.lower 0)
     State.init = true := by decide
 
-/-- **C11 (failed operations, state)**: whatever an operation does — fail half-way included — it
-    neither binds a name in the user's frame nor leaves tracing mode switched on. -/
+/-- … and one that fails while PARSING -/
+example : (sys Gen.config nameLt [⟨[], false, false, 1, 0, 0, [], [], false, false, true⟩]).failsAt (.check 0)
+    State.init = true := by decide
+
+/-- **C11 (failed operations, state)**: whatever an operation does — fail half-way included, in a
+    parse too — it neither binds a name in the user's frame, nor leaves tracing mode switched on, nor
+    leaves a definition recorded as "being parsed". -/
 theorem op_keeps_session_clean {cfg : Config} (hs : cfg.Sound) (lt : Nat → Nat → Bool) (P : Pool)
     (o : Op) (s : State) :
-    ((sys cfg lt P).step o s).leaks = s.leaks ∧ ((sys cfg lt P).step o s).tracing = s.tracing :=
-  step_clean cfg hs.noFrameWrite hs.tracingRestored lt P o s
+    ((sys cfg lt P).step o s).leaks = s.leaks ∧ ((sys cfg lt P).step o s).tracing = s.tracing ∧
+      (s.parsing = [] → ((sys cfg lt P).step o s).parsing = []) :=
+  ⟨(step_clean cfg hs.noFrameWrite hs.tracingRestored lt P o s).1,
+   (step_clean cfg hs.noFrameWrite hs.tracingRestored lt P o s).2,
+   step_parsing cfg hs.noFrameWrite hs.parseRestores lt P o s⟩
 
-/-! ## the full statement is false for the order the code uses -/
+/-! ## without the restart of the numbering the full statement is false for the order the code uses -/
+
+/-- the configuration of the code before `fix: restart the numbering of temporary variables…` -/
+def preFix : Config := { Gen.config with checkRestartsTmp := false }
 
 /-- `one` draws one `%tmp`; `two` draws two that are live together across a block boundary -/
 def tmpPool : Pool :=
-  [⟨[], false, false, 1, 1, 0, [[0]], [], false, false⟩,
-   ⟨[], false, false, 1, 2, 0, [[0, 1]], [], false, false⟩]
+  [⟨[], false, false, 1, 1, 0, [[0]], [], false, false, false⟩,
+   ⟨[], false, false, 1, 2, 0, [[0, 1]], [], false, false, false⟩]
 
-/-- **known finding** (replayed on the real engine): after nine compilations of `one` the counter
-    stands at 9, `two` gets `%tmp9`, `%tmp10`, and `"%tmp10" < "%tmp9"` as strings: the block's ports
-    come out in the other order than in a fresh session (`%tmp0`, `%tmp1`). -/
-theorem compile_history_free_false_for_name_order : ¬ (sys Gen.config nameLt tmpPool).HistoryFree := by
+/-- **fixed defect** (was replayed on the real engine): without the restart, after nine compilations of
+    `one` the counter stands at 9, `two` gets `%tmp9`, `%tmp10`, and `"%tmp10" < "%tmp9"` as strings: the
+    block's ports come out in the other order than in a fresh session (`%tmp0`, `%tmp1`). -/
+theorem compile_history_free_false_for_name_order : ¬ (sys preFix nameLt tmpPool).HistoryFree := by
   intro h
   have := h (List.replicate 9 (.lower 0)) 1
   revert this
   decide
 
-/-- `nameLt` is indeed not invariant under renumbering (so the `_partial` hypothesis is not vacuous
-    bookkeeping: it is exactly what fails) -/
+/-- `nameLt` is indeed not invariant under renumbering (so the disjunction in `compile_history_free_of_sound`
+    is not vacuous bookkeeping: for the real order, the restart is exactly what is needed) -/
 theorem nameLt_not_shiftInv : ¬ ShiftInv nameLt := by
   intro h
   have := h 9 0 1
@@ -89,16 +123,16 @@ theorem nameLt_not_shiftInv : ¬ ShiftInv nameLt := by
 
 /-! ## each mechanism is needed (model-level witnesses; the second and third were real defects) -/
 
-def good : Config := ⟨true, true, false, true, false⟩
+def good : Config := ⟨true, true, false, true, false, true, true, true⟩
 
 /-- without `reset()` in `check` (and with `parsed` surviving) an earlier failed check hides a later
     error: `A` calls `bad1`, `bad2`; checking `A` fails on `bad2` while `bad1` stays parsed but
     unchecked; then `B` (calls `bad1`) checks fine although it fails in a fresh session -/
 theorem reset_needed :
     ¬ (sys { good with checkResets := false } natLt
-        [⟨[], true, false, 1, 0, 0, [], [], false, false⟩, ⟨[], true, false, 1, 0, 0, [], [], false, false⟩,
-         ⟨[0, 1], false, false, 1, 0, 0, [], [], false, false⟩,
-         ⟨[0], false, false, 1, 0, 0, [], [], false, false⟩]).HistoryFree := by
+        [⟨[], true, false, 1, 0, 0, [], [], false, false, false⟩, ⟨[], true, false, 1, 0, 0, [], [], false, false, false⟩,
+         ⟨[0, 1], false, false, 1, 0, 0, [], [], false, false, false⟩,
+         ⟨[0], false, false, 1, 0, 0, [], [], false, false, false⟩]).HistoryFree := by
   intro h
   have := h [.check 2] 3
   revert this
@@ -108,9 +142,9 @@ theorem reset_needed :
     `fix: … bind it in a copied scope`) makes a later user of the shadowed global crash -/
 theorem frame_copy_needed :
     ¬ (sys { good with nestedRecBindsInFrame := true } natLt
-        [⟨[], false, false, 1, 0, 0, [], [⟨1, true, 0⟩], false, false⟩,
-         ⟨[], false, false, 1, 0, 0, [], [], false, false⟩,
-         ⟨[1], false, false, 1, 0, 0, [], [], false, false⟩]).HistoryFree := by
+        [⟨[], false, false, 1, 0, 0, [], [⟨1, true, 0⟩], false, false, false⟩,
+         ⟨[], false, false, 1, 0, 0, [], [], false, false, false⟩,
+         ⟨[1], false, false, 1, 0, 0, [], [], false, false, false⟩]).HistoryFree := by
   intro h
   have := h [.lower 0] 2
   revert this
@@ -120,21 +154,41 @@ theorem frame_copy_needed :
     `fix: set_tracing_state …`) changes the error a later definition is rejected with -/
 theorem tracing_restore_needed :
     ¬ (sys { good with tracingRestored := false } natLt
-        [⟨[], false, false, 1, 0, 1, [], [], true, true⟩,
-         ⟨[], false, true, 1, 0, 0, [], [], false, false⟩]).FailedOpNoEffect := by
+        [⟨[], false, false, 1, 0, 1, [], [], true, true, false⟩,
+         ⟨[], false, true, 1, 0, 0, [], [], false, false, false⟩]).FailedOpNoEffect := by
   intro h
   have := h [] (.lower 0) [] 1 (by decide)
   revert this
+  decide
+
+/-- if neither `reset()` emptied `parsing` nor `_parse` removed what it added, a definition whose
+    signature does not parse would be rejected as *cyclic* from the second attempt on -/
+theorem parsing_emptied_needed :
+    ¬ (sys { good with resetClearsParsing := false, parseRestores := false } natLt
+        [⟨[], false, false, 1, 0, 0, [], [], false, false, true⟩]).HistoryFree := by
+  intro h
+  have := h [.check 0] 0
+  revert this
+  decide
+
+/-- … and without the `finally` alone every `check` fails: `check` parses its argument, `get_checked`
+    parses it again and finds it still recorded (history free, but useless; `real_config_sound` rules it out) -/
+theorem parse_restore_needed :
+    ((sys { good with parseRestores := false } natLt
+        [⟨[], false, false, 1, 0, 0, [], [], false, false, false⟩]).observe State.init 0).1 = .error .cyclic := by
   decide
 
 /-! ## lowering twice from the same cache (`insert_return_vars` guard, `input_tys.append`) -/
 
 /-- **C11 (compiled more than once)**: with the guard in `compile_cfg` and nobody reading
     `input_tys`, lowering a (non-comptime) definition again from the same cached, already mutated CFG
-    object yields the same entry — the in-place mutations are not observable. -/
+    object yields the same entry — the in-place mutations are not observable.  (Extra hypothesis: the globals
+    the body uses are in the cache, as they are after a successful `check`; otherwise the first lowering
+    checks them on demand, which is covered by the history theorems, not by this one.) -/
 theorem relower_entry_stable_partial {cfg : Config} (hg : cfg.returnVarsGuard = true)
     (hi : cfg.compilerReadsInputTys = false) (lt : Nat → Nat → Bool) (P : Pool) (n : Nat) (s s₁ : State)
     (e : OutEntry) (r : RawDef) (hr : P[n]? = some r) (hnc : r.comptime = false)
+    (hd : ∀ d ∈ r.deps, s.hasChecked d = true)
     (h : compileOne cfg lt P n s = (s₁, .ok e)) :
     (compileOne cfg lt P n s₁).2 = .ok e := by
   unfold compileOne at h ⊢
@@ -143,25 +197,37 @@ theorem relower_entry_stable_partial {cfg : Config} (hg : cfg.returnVarsGuard = 
   | none => rw [hf] at h; simp at h
   | some c =>
     rw [hf] at h
-    simp only [hnc, Bool.false_eq_true, ↓reduceIte, hg, Bool.true_and, hi, Prod.mk.injEq,
+    have hid1 : ∀ ins k, (setRet ins k).id = k.id := fun _ _ => rfl
+    have hid2 : ∀ ext k, (setExt ext k).id = k.id := fun _ _ => rfl
+    -- first lowering: every global is cached, so nothing is checked on demand
+    have hd0 : ∀ d ∈ r.deps,
+        State.hasChecked { s with checked := updChecked n (setRet (retAfter cfg c.core)) s.checked } d = true := by
+      intro d hdm
+      have := hd d hdm
+      simpa only [State.hasChecked, any_id_updChecked n d _ (hid1 _)] using this
+    simp only [hnc, Bool.false_eq_true, ↓reduceIte, ensureAll_noop cfg P r.deps _ hd0, hi, Prod.mk.injEq,
       Except.ok.injEq] at h
     obtain ⟨hs, he⟩ := h
     subst hs
-    simp only
-    have key : ∀ f : CfgCore → CfgCore, (∀ k, (f k).id = k.id) →
-        findChecked n (updChecked n f s.checked) = some { c with core := f c.core } :=
-      fun f hf' => findChecked_updChecked n f hf' _ c hf
-    rw [key]
-    · simp only [hnc, Bool.false_eq_true, ↓reduceIte, hg, Bool.true_and, hi]
-      subst he
-      congr 2
-      split <;> simp_all
-    · intro k; rfl
+    -- second lowering, from the mutated object
+    have hf1 : findChecked n (updChecked n (setExt (c.core.inputTysExtra + closures r))
+        (updChecked n (setRet (retAfter cfg c.core)) s.checked)) =
+        some { c with core := setExt (c.core.inputTysExtra + closures r) (setRet (retAfter cfg c.core) c.core) } := by
+      have := findChecked_updChecked n (setRet (retAfter cfg c.core)) (hid1 _) _ c hf
+      exact findChecked_updChecked n (setExt _) (hid2 _) _ _ this
+    simp only [hf1, hnc, Bool.false_eq_true, ↓reduceIte, retAfter_stable cfg hg, hi]
+    have key : ∀ st : State, (∀ d, st.hasChecked d = s.hasChecked d) →
+        ensureAll cfg P r.deps st = (st, .ok ()) := fun st hst =>
+      ensureAll_noop cfg P r.deps st (fun d hdm => by rw [hst]; exact hd d hdm)
+    rw [key _ (by
+      intro d
+      simp only [State.hasChecked, any_id_updChecked n d _ (hid1 _), any_id_updChecked n d _ (hid2 _)])]
+    simp only [← he]
 
-example : (compileOne good natLt tmpPool 1 ⟨[⟨⟨1, 0, 0⟩, 4⟩], [1], 6, 0, 0, [], false⟩).2
+example : (compileOne good natLt tmpPool 1 ⟨[⟨⟨1, 0, 0⟩, 4⟩], [1], 6, 0, 0, [], false, []⟩).2
     = .ok ⟨1, 1, [[0, 1]], none⟩ := by decide
 
-def recPool : Pool := [⟨[], false, false, 2, 0, 0, [], [⟨7, true, 1⟩], false, false⟩]
+def recPool : Pool := [⟨[], false, false, 2, 0, 0, [], [⟨7, true, 1⟩], false, false, false⟩]
 
 /-- without the guard the second lowering sees the return variables twice -/
 theorem guard_needed :
@@ -195,8 +261,8 @@ theorem reset_clears_all_caches :
 /-- nobody outside the checker reads `input_tys`, and nobody writes into a frame namespace -/
 theorem no_input_tys_read_no_frame_write : Gen.inputTysReads = [] ∧ Gen.frameWrites = [] := by decide
 
-/-- the session-global counters are exactly the ones classified here: `tmp_vars` and `DefId._ids` are
-    modelled (`tmpCtr`, `defCtr`); the other three are unmodelled (the correspondence run observes that
+/-- the session-global counters are exactly the ones classified here: `tmp_vars` (restarted by `check`)
+    and `DefId._ids` are modelled (`tmpCtr`, `defCtr`); the other three are unmodelled (the correspondence run observes that
     they do not reach the Hugr).  A NEW counter breaks this theorem. -/
 theorem counters_classified :
     Gen.counters = ["cfg/builder.py:tmp_vars", "compiler/core.py:GlobalConstId._fresh_ids",
